@@ -37,6 +37,13 @@ class C08(AstKindProp):
         if kind in ("function", "method"):
             opts.update({"inline_types": r.random() < 0.5, "emit_as_kwonlyargs": r.random() < 0.5, "indent_level": r.choice([0, 1, 2]),
                          "function_type": r.choice(["static", "self", "cls"]) if kind == "function" else "self"})  # fmt: skip
+            # a function that returns an expression over its own parameters (the parsed description then carries a body)
+            idents = [n for n, _ in irj["params"] if n.isidentifier() and not n.endswith("kwargs")]
+            if idents and r.random() < 0.2:
+                ret = dict(irj.get("returns") or {})
+                ret["default"] = "```(%s, 1)```" % idents[0] if r.random() < 0.5 else "```%s```" % " + ".join(idents[:2])
+                irj["returns"] = ret
+                opts["returns_parameters"] = True
         run.dist["kind"][kind] += 1
         return {"ir": irutil.ir_to_json(irj), "kind": kind, "opts": opts}
 
@@ -88,6 +95,22 @@ class C08(AstKindProp):
             return [{"what": "emit/parse raised during the three emissions", "exc": exc_kind(e), "kind": c["kind"]}]
         if t[1] != t[2]:
             return [{"what": "second and third emission differ", "kind": c["kind"], "second": t[1][:1200], "third": t[2][:1200]}]
+        if c["kind"] in ("function", "method"):
+            # "a definition doctrans produced is never changed again by converting it to itself" - also when the parsed
+            # description has, in between, been handed to the emitter of ANOTHER kind (what sync does with one description)
+            try:
+                k, o = c["kind"], c["opts"]
+                d = kinds.parse(k, kinds.emit(k, self.py_ir(c["ir"]), o))
+                ref = kinds.to_source(k, kinds.emit(k, d, o))
+                try:
+                    kinds.emit_nocopy("class", d, {"emit_default_doc": False})
+                except Exception:
+                    pass
+                got = kinds.to_source(k, kinds.emit_nocopy(k, d, o))
+                if got != ref:
+                    return [{"what": "the emission of a parsed definition changes once the same description has been emitted as a class", "kind": k, "alone": ref[:1200], "after_class": got[:1200]}]
+            except Exception:
+                pass
         return []
 
     def code_breaks(self, c, is_return, typ, code):
